@@ -27,6 +27,7 @@ type c05Case struct {
 	Color     bool   `json:"color,omitempty"`
 	Two       bool   `json:"two,omitempty"`       // call cells: an unrelated entry precedes the slot
 	Empty     bool   `json:"empty,omitempty"`     // call cells: the stored value is the empty text
+	HeaderVal bool   `json:"headerval,omitempty"` // call cells: the stored value consists of lines shaped like an entry header and a near-terminator
 	AfterFail bool   `json:"afterfail,omitempty"` // call cells: the same test made two failing calls (invalid JSON, mismatch) into another file first
 }
 
@@ -47,6 +48,8 @@ func c05Gen(c *vfCtx, emit func(c05Case)) {
 					if (api == "snap" || api == "ssnap") && slot != "missing" {
 						// a stored value that is the empty text is still a stored value
 						emit(c05Case{Kind: "call", CI: ci, Env: env, Opt: opt, API: api, Slot: slot, Empty: true})
+						// ... and so is one that looks like an entry header or a terminator
+						emit(c05Case{Kind: "call", CI: ci, Env: env, Opt: opt, API: api, Slot: slot, HeaderVal: true})
 					}
 					if !c.thorough() && (api == "snap" || api == "json" || api == "yaml") {
 						emit(c05Case{Kind: "call", CI: ci, Env: env, Opt: opt, API: api, Slot: slot, Two: true})
@@ -108,6 +111,12 @@ func c05Run(c *vfCtx, cs c05Case) {
 		old = ""
 		if cs.Slot == "equal" {
 			neu = ""
+		}
+	}
+	if cs.HeaderVal {
+		old = "[retry - 2]\n--- \n[TestA - 9]"
+		if cs.Slot == "equal" {
+			neu = old
 		}
 	}
 	cl := vfCall{API: cs.API, Val: neu, Upd: cs.Opt}
